@@ -303,6 +303,7 @@ def extract(src, problems):
             problems.append('class %s: constructor defined by %s, which the model does not know' % (e['name'], e.get('init_owner')))
         if (e.get('init_owner') == '_HTTPMove') != bool(e['move']):
             problems.append('class %s: location= constructor not owned by _HTTPMove' % e['name'])
+    L.append('Definition status_map_excluded : list text := [%s].\n' % '; '.join(_s(n) for n in status_map_fact(mod.tree, problems)))
     L.append('Definition forbidden_init_classes : list text := [%s].\n' % '; '.join(_s(n) for n in fb))
     L.append('\n(* ---- REGENERATED by harness/c19/translate.py from HTTPException.__init__, _HTTPMove.__init__,\n'
              '   _json_formatter, prepare, __call__ of this source tree *)\n')
@@ -388,3 +389,56 @@ def raise_sites(src, problems):
                     walk(ch, qual)
             walk(tree, [])
     return sorted(sites)
+
+
+# ------------------------------------------------------------------ exception_response / status_map
+STATUS_LOOP = ("For(target=Tuple(elts=[Name(id='name', ctx=Store()), Name(id='value', ctx=Store())], ctx=Store()), iter=Call(func="
+               "Name(id='list', ctx=Load()), args=[Call(func=Attribute(value=Call(func=Name(id='globals', ctx=Load()), args=[], "
+               "keywords=[]), attr='items', ctx=Load()), args=[], keywords=[])], keywords=[]), body=[If(test=BoolOp(op=And(), values=["
+               "Call(func=Name(id='isinstance', ctx=Load()), args=[Name(id='value', ctx=Load()), Name(id='type', ctx=Load())], "
+               "keywords=[]), Call(func=Name(id='issubclass', ctx=Load()), args=[Name(id='value', ctx=Load()), Name(id="
+               "'HTTPException', ctx=Load())], keywords=[]), Compare(left=Name(id='value', ctx=Load()), ops=[NotIn()], comparators=["
+               "EXCLUDED]), UnaryOp(op=Not(), operand=Call(func=Attribute(value=Name(id='name', ctx=Load()), attr='startswith', "
+               "ctx=Load()), args=[Constant(value='_')], keywords=[]))]), body=[Assign(targets=[Name(id='code', ctx=Store())], value="
+               "Call(func=Name(id='getattr', ctx=Load()), args=[Name(id='value', ctx=Load()), Constant(value='code'), Constant("
+               "value=None)], keywords=[])), If(test=Name(id='code', ctx=Load()), body=[Assign(targets=[Subscript(value=Name(id="
+               "'status_map', ctx=Load()), slice=Name(id='code', ctx=Load()), ctx=Store())], value=Name(id='value', ctx=Load()))], "
+               "orelse=[])], orelse=[])], orelse=[])")
+FACTORY = ("FunctionDef(name='exception_response', args=arguments(posonlyargs=[], args=[arg(arg='status_code')], kwonlyargs=[], "
+           "kw_defaults=[], kwarg=arg(arg='kw'), defaults=[]), body=[Assign(targets=[Name(id='exc', ctx=Store())], value=Call(func="
+           "Subscript(value=Name(id='status_map', ctx=Load()), slice=Name(id='status_code', ctx=Load()), ctx=Load()), args=[], "
+           "keywords=[keyword(value=Name(id='kw', ctx=Load()))])), Return(value=Name(id='exc', ctx=Load()))], decorator_list=[], "
+           "type_params=[])")
+
+
+def status_map_fact(tree, problems):
+    """the module-level loop that fills status_map and the factory exception_response have exactly the modelled shape;
+    status_map is bound once (= {}) before the loop and written nowhere else; -> names of the excluded classes"""
+    dflt = ['HTTPClientError', 'HTTPServerError']
+    try:
+        loops = [st for st in tree.body if isinstance(st, ast.For)]
+        if len(loops) != 1:
+            raise ValueError('%d module-level loops' % len(loops))
+        loop = loops[0]
+        comp = loop.body[0].test.values[2].comparators[0]
+        if not (isinstance(comp, ast.Set) and comp.elts and all(isinstance(e, ast.Name) for e in comp.elts)):
+            raise ValueError('excluded classes are not a set of names')
+        names = [e.id for e in comp.elts]
+        if ast.dump(loop).replace(ast.dump(comp), 'EXCLUDED') != STATUS_LOOP:
+            raise ValueError('the loop is not the modelled one')
+        if tree.body.index(loop) < max(i for i, st in enumerate(tree.body) if isinstance(st, ast.ClassDef)):
+            raise ValueError('a class is defined after the loop')
+        binds = [st for st in tree.body if isinstance(st, ast.Assign)
+                 and any(isinstance(t, ast.Name) and t.id == 'status_map' for t in st.targets)]
+        if len(binds) != 1 or ast.dump(binds[0].value) != 'Dict(keys=[], values=[])' or tree.body.index(binds[0]) > tree.body.index(loop):
+            raise ValueError('status_map binding')
+        uses = [n for n in ast.walk(tree) if isinstance(n, ast.Name) and n.id == 'status_map']
+        if len(uses) != 3:
+            raise ValueError('status_map is used in %d places' % len(uses))
+        fns = [st for st in tree.body if isinstance(st, ast.FunctionDef) and st.name == 'exception_response']
+        if len(fns) != 1 or ast.dump(F.strip_doc(fns[0]).body[0]) != FACTORY:
+            raise ValueError('exception_response is not status_map[status_code](**kw)')
+        return names
+    except Exception as e:
+        problems.append('status_map / exception_response: %r' % (e,))
+        return dflt
